@@ -71,7 +71,7 @@ def cases(tier, seed):
         for r in range(0, min(m, n) + 1):
             for row in range(rows):
                 out.append({"key": f"lowrank/{m}x{n}/r={r}/row={row}", "kind": "lowrank", "m": m, "n": n, "r": r, "row": row})
-        for lay in ("F", "T", "view"):  # same matrix, different memory layout
+        for lay in ("F", "T", "view", "ro"):  # same matrix, different memory layout
             out.append({"key": f"layout/{m}x{n}/{lay}", "kind": "layout", "m": m, "n": n, "cls": "generic", "row": 0, "lay": lay})
         # graded inputs: a tiny (2^-45 relative) but non-zero pivot in the middle of the elimination
         for kpos in range(min(m, n)):
